@@ -177,6 +177,9 @@ pub enum AdcMut {
     /// Resize the waveform; `fix` re-seals baseline and requested_samples so
     /// that only the sample-count / keep_last rules are in play.
     Resize { n: u16, fix: bool },
+    /// 65536 + extra samples: the sample count no longer fits the 16-bit
+    /// requested_samples field, whatever that field says
+    Huge { extra: u16 },
     BaselineDelta(i16),
     /// Truncating instead of flooring mean.
     BaselineTrunc,
@@ -203,6 +206,7 @@ pub fn adc_mut() -> impl Strategy<Value = AdcMut> {
         1 => Just(AdcMut::MacZero),
         1 => any::<u8>().prop_map(AdcMut::OddByte),
         4 => (prop_oneof![Just(0u16), Just(1), Just(62), Just(63), Just(64), Just(65), 0u16..400], any::<bool>()).prop_map(|(n, fix)| AdcMut::Resize { n, fix }),
+        1 => prop_oneof![Just(0u16), Just(64), Just(100), 0u16..700].prop_map(|extra| AdcMut::Huge { extra }),
         3 => prop_oneof![Just(1i16), Just(-1), any::<i16>()].prop_map(AdcMut::BaselineDelta),
         2 => Just(AdcMut::BaselineTrunc),
         4 => prop_oneof![Just(0u16), Just(1), Just(33), Just(34), Just(35), Just(4094), Just(4095), 0u16..4096].prop_map(AdcMut::KeepLast),
@@ -233,6 +237,13 @@ pub fn apply_adc_mut(m: &mut AdcModel, mu: &AdcMut) {
                 m.seal_baseline();
                 m.requested = (n as u32 + 2).min(65535) as u16;
             }
+        }
+        AdcMut::Huge { extra } => {
+            let fill = m.baseline;
+            m.samples.resize(65_536 + extra as usize, fill);
+            m.seal_baseline();
+            // the field that would make a 16-bit count of the samples look right
+            m.requested = extra.wrapping_add(2);
         }
         AdcMut::BaselineDelta(d) => m.baseline = m.baseline.wrapping_add(d),
         AdcMut::BaselineTrunc => {
@@ -333,6 +344,13 @@ pub enum ChunkMut {
     HeaderCrcXor(u32),
     PayloadCrcXor(u32),
     EmptyPayload,
+    /// the payload CRC word replaced by a plausible wrong one: 0 = CRC over the
+    /// unpadded payload, 1 = not inverted, 2 = byte-swapped, 3 = CRC over header
+    /// and payload, 4 = 0, 5 = all ones, 6 = the header CRC word
+    PayloadCrcVariant(u8),
+    /// the header CRC word replaced: 0 = not inverted, 1 = byte-swapped, 2 = CRC
+    /// over the first 12 bytes, 3 = 0, 4 = all ones
+    HeaderCrcVariant(u8),
     /// a known device id with one byte replaced
     DeviceNear { board: u8, byte: u8, val: u8 },
     /// bytes 0-1 of one known device id with bytes 2-3 of another
@@ -343,6 +361,8 @@ pub fn chunk_mut() -> impl Strategy<Value = ChunkMut> {
         2 => prop_oneof![Just(0u32), any::<u32>()].prop_map(ChunkMut::Device),
         2 => (0u8..71, 0u8..4, prop_oneof![any::<u8>(), Just(40u8), Just(41u8), Just(232u8), Just(236u8), Just(57u8)]).prop_map(|(board, byte, val)| ChunkMut::DeviceNear { board, byte, val }),
         2 => (0u8..71, 0u8..71).prop_map(|(a, b)| ChunkMut::DeviceMix { a, b }),
+        2 => (0u8..7).prop_map(ChunkMut::PayloadCrcVariant),
+        1 => (0u8..5).prop_map(ChunkMut::HeaderCrcVariant),
         2 => prop_oneof![Just(3u8), Just(4), Just(255), any::<u8>()].prop_map(ChunkMut::Chip),
         2 => prop_oneof![Just(1u8), Just(2), Just(3), Just(128), any::<u8>()].prop_map(ChunkMut::Flags),
         4 => (-5i8..=5).prop_map(ChunkMut::LengthRel),
@@ -364,6 +384,39 @@ pub fn apply_chunk_mut(m: &mut ChunkModel, mu: &ChunkMut) {
         ChunkMut::HeaderCrcXor(v) => m.header_crc_xor = *v,
         ChunkMut::PayloadCrcXor(v) => m.payload_crc_xor = *v,
         ChunkMut::EmptyPayload => m.payload.clear(),
+        ChunkMut::PayloadCrcVariant(k) => {
+            let clean = ChunkModel { header_crc_xor: 0, payload_crc_xor: 0, ..m.clone() }.encode();
+            if clean.len() >= 28 {
+                let n = clean.len();
+                let stored = u32::from_le_bytes([clean[n - 4], clean[n - 3], clean[n - 2], clean[n - 1]]);
+                let padded = &clean[20..n - 4];
+                let unpadded = &padded[..m.payload.len().min(padded.len())];
+                let want = match k % 7 {
+                    0 => !oracles::crc::crc32c(unpadded),
+                    1 => oracles::crc::crc32c(padded),
+                    2 => stored.swap_bytes(),
+                    3 => !oracles::crc::crc32c(&clean[..n - 4]),
+                    4 => 0,
+                    5 => u32::MAX,
+                    _ => u32::from_le_bytes([clean[16], clean[17], clean[18], clean[19]]),
+                };
+                m.payload_crc_xor = stored ^ want;
+            }
+        }
+        ChunkMut::HeaderCrcVariant(k) => {
+            let clean = ChunkModel { header_crc_xor: 0, payload_crc_xor: 0, ..m.clone() }.encode();
+            if clean.len() >= 20 {
+                let stored = u32::from_le_bytes([clean[16], clean[17], clean[18], clean[19]]);
+                let want = match k % 5 {
+                    0 => oracles::crc::crc32c(&clean[..16]),
+                    1 => stored.swap_bytes(),
+                    2 => !oracles::crc::crc32c(&clean[..12]),
+                    3 => 0,
+                    _ => u32::MAX,
+                };
+                m.header_crc_xor = stored ^ want;
+            }
+        }
         ChunkMut::DeviceNear { board, byte, val } => {
             let mut b = PADWING_BOARDS[*board as usize % 71].2.to_le_bytes();
             b[*byte as usize % 4] = *val;
